@@ -46,4 +46,11 @@ def delPath : List (String × Val) → List String → Res (List (String × Val)
 def subPath (d : D Val) (path : List String) : Res (D Val) :=
   if path.isEmpty then throw Err.index else (delPath d.items path).map fun kvs => { d with items := kvs }
 
+/-- `d - [k1, (p1, .., pn), …]` (`_dictattr.py` `__sub__`, the list branch): the members are taken one after the other on ONE copy of
+`d`, a string as a key (`subKey`), a tuple as a path (`subPath`, which copies the branches along the path) -/
+def subMixed (d : D Val) (ks : List (String ⊕ List String)) : Res (D Val) :=
+  ks.foldlM (fun acc k => match k with
+    | .inl s => pure (subKey acc s)
+    | .inr p => subPath acc p) d
+
 end Pyg.DA
